@@ -781,7 +781,7 @@ fn body(ctx: &Ctx) -> (Summary, Meta) {
         }
         let mut cmd = std::process::Command::new(&c17s);
         cmd.arg(ctx.tier.name()).env("RUST_BACKTRACE", "0");
-        if let Some(k) = &ctx.only_key {
+        if let Some(k) = ctx.only_key.as_ref().filter(|k| k.starts_with("instr:")) {
             cmd.arg("--only-key").arg(k);
         }
         let o = cmd.output().expect("run c17s");
